@@ -45,11 +45,40 @@ Definition spec_ok (c : case_t) : bool :=
 """
 
 
+def burst_fail_cases(ctx, n):
+    """Several failing jobs whose completions are collected in the same wake-up (2-4 completions per oracle
+    step), failing sets of size 2-4: the error must still name every failed job."""
+    rng = ctx.rng
+    out = []
+    for _ in range(n):
+        shape = rng.random()
+        if shape < 0.4:
+            nj = rng.choice([3, 4, 5])
+            nodes = [dict(id=0, preds=[], split=nj), dict(id=1, preds=[0], split=None), dict(id=2, preds=[], split=None)]
+        elif shape < 0.7:
+            nodes = [dict(id=i, preds=[], split=None) for i in range(rng.choice([3, 4, 5]))]
+            nodes.append(dict(id=len(nodes), preds=[0], split=2))
+        else:
+            nodes = fakes.gen_nodes(rng, nmin=3, nmax=6)
+        jobs = fakes.all_jobs(nodes)
+        nj = len(jobs)
+        fail = [list(j) for j in rng.sample(jobs, min(len(jobs), rng.choice([2, 2, 3, 4])))]
+        steps = [dict(c=[rng.randrange(max(nj, 1)) for _ in range(rng.choice([2, 2, 3, 4]))],
+                      vis=[1 if rng.random() < 0.4 else 0 for _ in range(nj)]) for _ in range(2 * nj + 4)]
+        out.append(dict(nodes=nodes, k=rng.choice([None, None, 3, nj]), fail=fail, oracle=steps, mode="async",
+                        burst=True))
+    return out
+
+
 def run(ctx):
+    extra = burst_fail_cases(ctx, ctx.budget(14, 200))
     out, cases, obs, usable, bad = fakes.drive(
-        ctx, "c14", SPEC, ctx.budget(34, 350), 0, ctx.budget(16, 768), RULE,
+        ctx, "c14", SPEC, ctx.budget(24, 350), 0, ctx.budget(12, 768), RULE,
         "an exception escaped the scheduling loop / an independent job was not executed / a downstream job was "
-        "executed / the error does not name exactly the failed jobs", fail_p=0.85)
+        "executed / the error does not name exactly the failed jobs", fail_p=0.85, extra_cases=extra)
+    two = [i for i in usable if any(sum(1 for j in s["done"] if list(j) in [["n%d" % f[0], f[1]] for f in cases[i].get("fail") or []]) >= 2
+                                    for s in obs[i].get("steps") or [])]
+    out.distribution["runs_with_two_or_more_failures_collected_in_one_wakeup"] = len(two)
     return out
 
 
